@@ -5,6 +5,7 @@ import (
 	"go/ast"
 	"go/parser"
 	"go/token"
+	"go/types"
 	"os"
 	"path/filepath"
 	"regexp"
@@ -43,7 +44,9 @@ func extractRules(path string) ([]shippedRule, error) {
 	if err != nil {
 		return nil, err
 	}
-	text := func(n ast.Node) string { return string(src[fset.Position(n.Pos()).Offset:fset.Position(n.End()).Offset]) }
+	text := func(n ast.Node) string {
+		return string(src[fset.Position(n.Pos()).Offset:fset.Position(n.End()).Offset])
+	}
 	lit := func(e ast.Expr) string {
 		if bl, ok := e.(*ast.BasicLit); ok && bl.Kind == token.STRING {
 			if s, err := strconv.Unquote(bl.Value); err == nil {
@@ -147,7 +150,9 @@ func fromQuickFix(l *exprgen.Linted, w linter.Warning, _ string) (string, string
 func fromRegexp(re *regexp.Regexp, origIdx, replIdx int) func(*exprgen.Linted, linter.Warning, string) (string, string, bool) {
 	return func(_ *exprgen.Linted, w linter.Warning, _ string) (string, string, bool) {
 		m := re.FindStringSubmatch(w.Text)
-		if m == nil {
+		if m == nil || m[origIdx] == m[replIdx] {
+			// "could simplify X to X": go/printer drops the parentheses around parameter types, the
+			// message shows no rewrite that could be executed
 			return "", "", false
 		}
 		return m[origIdx], m[replIdx], true
@@ -165,7 +170,54 @@ func classPurity(orig, _ string) string {
 	return "unclassified"
 }
 
-var ruleSpecs = []ruleSpec{
+// hand-written checkers whose diagnostics promise an equivalent rewrite (oracle only)
+var handSpecs = []ruleSpec{
+	{checker: "underef", kind: "stmts",
+		gen: func(p func(...string) string) string {
+			switch p("a", "s", "w", "i") {
+			case "a":
+				return "pa := &[3]int{a, b, c}; c = (*pa)[" + p("0", "1", "a") + "] + 1"
+			case "s":
+				return "ps := &st{a}; c = (*ps).n + b"
+			case "w":
+				return "ps := &st{a}; (*ps).n = b; c = ps.n"
+			}
+			return "pa := &[3]int{a, b, c}; (*pa)[" + p("0", "2", "fi()") + "] = 7; c = pa[0] + pa[2]"
+		},
+		rewrite: fromRegexp(simplifyToRe, 1, 2), class: classPurity},
+	{checker: "newDeref", kind: "stmts",
+		gen: func(p func(...string) string) string {
+			return p("c = *new(int) + a", "p = *new(float64) + q", "s = *new(string) + t", "k = *new(bool) || l", "u = *new(uint) + v",
+				"xs = *new([]int)", "var z st = *new(st); c = z.n", "c = int(*new(int32)) + a", "p = float64(*new(float32))", "c = len(*new([2]int))",
+				"c = len(*new(map[string]int))", "var pp *int = *new(*int); k = pp == nil")
+		},
+		rewrite: fromRegexp(replaceRe, 1, 2), class: classPurity},
+	{checker: "typeUnparen", kind: "stmts",
+		gen: func(p func(...string) string) string {
+			return p("var z (int) = a; c = z", "var zz [](int) = xs; c = len(zz)", "f := func(x (int)) int { return x + 1 }; c = f(a)",
+				"var z *(int) = &a; c = *z + 1", "var m map[(string)]int; c = len(m)", "c = int((uint)(u))")
+		},
+		rewrite: fromRegexp(simplifyToRe, 1, 2), class: classPurity},
+	{checker: "unlambda", kind: "stmts",
+		gen: func(p func(...string) string) string {
+			switch p("f", "m", "m", "g") {
+			case "f":
+				return "f := func(x int) int { return hi(x) }; c = f(a) + f(b)"
+			case "g":
+				return "f := func() int { return fi() }; c = f() + f()"
+			}
+			return "sv := st{a}; f := func(x int) int { return sv.add(x) }; sv.n = " + p("b", "a + 1", "7") + "; c = f(1)"
+		},
+		rewrite: fromRegexp(replaceRe, 1, 2),
+		class: func(orig, _ string) string {
+			if strings.Contains(orig, "sv.add") {
+				return "method-value-capture"
+			}
+			return classPurity(orig, "")
+		}},
+}
+
+var ruleSpecs = append([]ruleSpec{
 	{checker: "sloppyLen", kind: "expr",
 		gen: func(p func(...string) string) string {
 			return "len(" + p("s", "xs", "bs", "fs()", "fxs()", "s + t") + ") " + p("<= 0", "<= 0", "<= 00")
@@ -278,8 +330,8 @@ var ruleSpecs = []ruleSpec{
 		rewrite: fromRegexp(replaceRe, 1, 2), class: classPurity},
 	{checker: "valSwap", kind: "stmts",
 		gen: func(p func(...string) string) string {
-			x := p("a", "xs[a]", "xs[fi()]", "s", "xs[0]")
-			y := p("b", "xs[b]", "xs[gi()]", "t", "xs[1]")
+			x := p("a", "xs[a]", "xs[fi()]", "s", "xs[0]", "xs[b]")
+			y := p("b", "xs[b]", "xs[gi()]", "t", "xs[1]", "b")
 			if (x == "s") != (y == "t") {
 				x, y = "a", "b"
 			}
@@ -291,7 +343,16 @@ var ruleSpecs = []ruleSpec{
 				return "", "", false
 			}
 			return body, m[1], true
-		}, class: classPurity},
+		},
+		class: func(orig, _ string) string {
+			if impure(orig) {
+				return "impure-operand"
+			}
+			if strings.Contains(orig, "tmp := b; b = xs[b]") {
+				return "index-depends-on-swapped-var"
+			}
+			return "unclassified"
+		}},
 	{checker: "switchTrue", kind: "stmts",
 		gen: func(p func(...string) string) string {
 			return "switch true {\n\tcase " + p("a > b", "fb()", "k") + ":\n\t\tc = 1\n\tcase " + p("a == b", "fb()", "l") + ":\n\t\tc = 2\n\tdefault:\n\t\tc = 3\n\t}"
@@ -302,7 +363,7 @@ var ruleSpecs = []ruleSpec{
 			}
 			return body, strings.Replace(body, "switch true {", "switch {", 1), true
 		}, class: classPurity},
-}
+}, handSpecs...)
 
 const rulesLintHeader = "package p\n\nimport (\n\t\"bytes\"\n\t\"strings\"\n\t\"time\"\n)\n\nvar _ = bytes.Equal\nvar _ = strings.Index\nvar _ time.Time\n"
 
@@ -402,7 +463,7 @@ func runRules(meta *common.Meta, tier string, seed int64, outDir string) {
 			}
 			fired[sp.checker]++
 			o, n := orig, repl
-			squash := func(x string) string { return strings.ReplaceAll(x, " ", "") }
+			squash := func(x string) string { return strings.Join(strings.Fields(x), "") }
 			if squash(orig) == squash(p.body) {
 				// $$ is printed by go/printer, the analysed text is the generator's spelling
 				orig = p.body
@@ -415,6 +476,18 @@ func runRules(meta *common.Meta, tier string, seed int64, outDir string) {
 					continue
 				}
 				o, n = p.body, strings.Replace(p.body, orig, "("+repl+")", 1)
+			}
+			if p.kind == "stmts" && orig != p.body && !strings.Contains(p.body, orig) {
+				// go/printer's spelling of the cause vs the generator's: match modulo white space
+				var parts []string
+				for _, f := range strings.Fields(orig) {
+					parts = append(parts, regexp.QuoteMeta(f))
+				}
+				if re, err := regexp.Compile(strings.Join(parts, `\s*`)); err == nil {
+					if loc := re.FindStringIndex(p.body); loc != nil {
+						orig = p.body[loc[0]:loc[1]]
+					}
+				}
 			}
 			if p.kind == "stmts" && orig != p.body {
 				if !strings.Contains(p.body, orig) {
@@ -448,4 +521,94 @@ func runRules(meta *common.Meta, tier string, seed int64, outDir string) {
 	if len(meta.Samples) < 8 && len(dcs) > 0 {
 		meta.AddSample(map[string]interface{}{"checker": dcs[0].Tag.(tag).p.checker, "original": dcs[0].Orig, "suggestion": dcs[0].New})
 	}
+}
+
+// ---------------------------------------------------------------- newDeref: ZeroValueOf table vs the model
+
+var newDerefTypes = []string{"int", "float64", "string", "bool", "uint", "int32", "float32", "byte", "[]int", "map[string]int", "*int",
+	"st", "[2]int", "complex128", "myInt", "myStr", "interface{}", "(int)", "error", "[]st", "*st", "struct{}", "func()", "chan int", "uintptr"}
+
+func runNewDeref(meta *common.Meta, outDir string) {
+	var src strings.Builder
+	src.WriteString("package p\n" + exprgen.LintPreamble + "type myInt int\ntype myStr string\n")
+	for i, t := range newDerefTypes {
+		fmt.Fprintf(&src, "func d%d() interface{} { return *new(%s) }\n", i, t)
+	}
+	l, err := exprgen.Load("p.go", src.String())
+	if err != nil {
+		panic(err)
+	}
+	ws, err := l.Run("newDeref")
+	if err != nil {
+		panic(err)
+	}
+	msgs := map[string][]string{}
+	for _, w := range ws {
+		fn := l.FuncOf(w.Pos)
+		msgs[fn] = append(msgs[fn], w.Text)
+	}
+	var bodies, idx []string
+	for _, d := range l.File.Decls {
+		fd, ok := d.(*ast.FuncDecl)
+		if !ok || !strings.HasPrefix(fd.Name.Name, "d") || fd.Body == nil || len(fd.Body.List) != 1 {
+			continue
+		}
+		rs, ok := fd.Body.List[0].(*ast.ReturnStmt)
+		if !ok {
+			continue
+		}
+		star, ok := rs.Results[0].(*ast.StarExpr)
+		if !ok {
+			continue
+		}
+		arg := star.X.(*ast.CallExpr).Args[0]
+		typ := l.Info.TypeOf(arg)
+		inner := arg
+		for {
+			p, ok := inner.(*ast.ParenExpr)
+			if !ok {
+				break
+			}
+			inner = p.X
+		}
+		class, dflt := "ZOther", false
+		switch u := typ.Underlying().(type) {
+		case *types.Basic:
+			switch {
+			case u.Info()&types.IsInteger != 0:
+				class = "ZInt"
+			case u.Info()&types.IsFloat != 0:
+				class = "ZFloat"
+			case u.Info()&types.IsString != 0:
+				class = "ZString"
+			case u.Info()&types.IsBoolean != 0:
+				class = "ZBool"
+			default:
+				class = "ZOtherBasic"
+			}
+			if b, ok := typ.(*types.Basic); ok {
+				switch b.Kind() {
+				case types.Bool, types.Int, types.Float64, types.String:
+					dflt = true
+				}
+			}
+		case *types.Slice, *types.Map, *types.Pointer, *types.Interface:
+			class = "ZNilable"
+		case *types.Array, *types.Struct:
+			class = "ZComposite"
+		}
+		_, isStar := inner.(*ast.StarExpr)
+		bodies = append(bodies, fmt.Sprintf("((%s, %s, %v, %s, %v), %s)", coqfmt.Str(l.Text(arg)), coqfmt.Str(l.Text(inner)), isStar, class, dflt, coqfmt.StrList(msgs[fd.Name.Name])))
+		idx = append(idx, fmt.Sprintf("*new(%s) => %q", l.Text(arg), msgs[fd.Name.Name]))
+	}
+	common.WriteFile(filepath.Join(outDir, "cases_c10_newderef.v"),
+		"From GC Require Import Base Model_Expr Model_Rewrites.\n"+
+			"Definition case_ok (c : (string * string * bool * zclass * bool) * list string) : bool :=\n"+
+			"  let '((ctext, ttext, star, cl, d), obs) := c in list_eqb String.eqb (new_deref_msgs ctext ttext star cl d) obs.\n"+
+			"Definition cases : list ((string * string * bool * zclass * bool) * list string) := [\n"+strings.Join(bodies, ";\n")+"\n].\n"+
+			"Definition M := Eval vm_compute in mismatches case_ok cases.\nPrint M.\n")
+	common.WriteFile(filepath.Join(outDir, "cases_c10_newderef.index.txt"), strings.Join(idx, "\n")+"\n")
+	meta.CaseFiles = append(meta.CaseFiles, "cases_c10_newderef.v")
+	meta.Evaluations += len(bodies)
+	meta.Distribution["newderef_types_compared"] = len(bodies)
 }
